@@ -159,7 +159,8 @@ def optimisers_transparent(ctx, py: PyRepo):
     ci = py.cls('MemoizingInterpreter')
     fn = ci.methods.get('pattern')
     ctx.require(fn is not None, 'anchor vanished: MemoizingInterpreter.pattern')
-    ev = PyEval()
+    from ..core.pyfacts import self_method_resolver as _smr
+    ev = PyEval(resolver=_smr(py, ci, SELF, only_private=True))      # `_is_saved(p)` and the like are read in place
     P = ('param', fn.args.args[1].arg)
     ok = True
     rets = [p for p in ev.paths(fn) if p.end[0] == 'return']
@@ -174,9 +175,65 @@ def optimisers_transparent(ctx, py: PyRepo):
                     ok = False
             if e.kind == 'ecall' and e.value[1][0] == 'attr' and e.value[1][1] == SELF and e.value[1][2].startswith('publish'):
                 ok = False
+        # the pattern gets onto the stack exactly once: either it is interpreted (the returned value is super().pattern(argument)), or
+        # - when the argument itself is returned - it is loaded from memory, after a test that it is there
+        loads = [e for e in p.events if e.kind == 'ecall' and e.value[1] == ('attr', SELF, 'load')]
+        if v == P:
+            def says_in_memory(c, arg):
+                if c[0] == 'cmp' and c[1] == 'in' and c[2] == arg and c[3][0] == 'attr' and c[3][2] == 'memory':
+                    return True
+                if c[0] == 'boolop' and c[1] == 'and':
+                    return any(says_in_memory(x, arg) for x in c[2])
+                return False
+
+            def through_helper(c):
+                # `self._is_saved(p)`: a private predicate of the class whose answer is (a conjunction containing) `p in <x>.memory`
+                if c[0] == 'call' and c[1][0] == 'attr' and c[1][1] == SELF and c[1][2] in ci.methods and tuple(c[2]) == (P,):
+                    h = ci.methods[c[1][2]]
+                    if len(h.args.args) == 2:
+                        hp = ('param', h.args.args[1].arg)
+                        rs = [q.end[1] for q in PyEval().paths(h) if q.end[0] == 'return']
+                        return bool(rs) and all(says_in_memory(r, hp) for r in rs)
+                return False
+            in_mem = any(b is True and (says_in_memory(c, P) or through_helper(c)) for c, b in p.conds)
+            if len(loads) != 1 or not in_mem:
+                ok = False
+        elif loads:
+            ok = False
     ctx.ob('optimiser-transparent', 'MemoizingInterpreter.pattern', ok and bool(rets),
-           'the memoiser must return its argument or super().pattern(argument) and may only load/save that very pattern',
+           'the memoiser must return super().pattern(argument), or - for a pattern found in memory - load that very pattern exactly once '
+           'and return it; it may only load/save that pattern',
            py.where(ci.module, fn))
+
+
+def declared_lists(ctx, py: PyRepo):
+    """what a module declares is what is added to it: `add_axiom(x)` / `add_claim(x)` / `add_proof_expression(x)` append x to the list
+    the phases iterate over exactly when it is not in it yet, and do nothing else to that list"""
+    ci = py.cls('ProofExp')
+    SELF_ = ('param', 'self')
+    for meth, attr in (('add_axiom', '_axioms'), ('add_claim', '_claims'), ('add_proof_expression', '_proof_expressions')):
+        fn = ci.methods.get(meth)
+        ctx.require(fn is not None and len(fn.args.args) == 2, f'anchor vanished: ProofExp.{meth}(x)')
+        X = ('param', fn.args.args[1].arg)
+        L = ('attr', SELF_, attr)
+        ok, n = True, 0
+        for p in PyEval().paths(fn):
+            if p.end[0] == 'raise':
+                continue
+            n += 1
+            known = next((b for c, b in p.conds if c == ('cmp', 'in', X, L)), None)
+            apps = [e.value for e in p.events if e.kind == 'ecall' and e.value[1] == ('attr', L, 'append')]
+            other = [e for e in p.events if e.kind in ('setattr', 'setitem', 'aug') and L in (e.value if isinstance(e.value, tuple) else ())] + \
+                    [e for e in p.events if e.kind == 'ecall' and e.value[1][0] == 'attr' and e.value[1][1] == L and e.value[1][2] != 'append']
+            if known is True:
+                ok = ok and not apps and not other
+            elif known is False:
+                ok = ok and len(apps) == 1 and apps[0][2] == (X,) and not other
+            else:
+                ok = ok and len(apps) == 1 and apps[0][2] == (X,) and not other     # no test: always appended
+        ctx.ob('module-phases', f'{meth}/declares-what-is-added', ok and n >= 1,
+               f'ProofExp.{meth} must append its argument to `self.{attr}` when it is not there yet (and leave the list alone otherwise): '
+               f'what the gamma / claim / proof phase publishes is this list', py.where(ci.module, fn))
 
 
 def symbol_table(ctx, py: PyRepo):
@@ -413,6 +470,7 @@ def run(ctx):
     loop_shape(ctx, py)
     optimisers_transparent(ctx, py)
     symbol_table(ctx, py)
+    declared_lists(ctx, py)
     bounded_writes(ctx, py)
     ctx.floor('who-may-publish', 6)
     ctx.floor('publish-loop', 4)
